@@ -35,7 +35,8 @@ pub fn compare(ev: &mut Ev, case: &DecCase, out: &DecOut, r: &Ref) {
     } else if out.had_any != r.out.had_any {
         ev.violation("chunk-diff", &key("had_errors"), format!("had_errors {} (chunked) vs {} (single call) | {}", out.had_any, r.out.had_any, case.describe()));
     } else if out.final_enc != r.out.final_enc {
-        ev.violation("chunk-diff", &key("encoding()"), format!("Decoder::encoding() {} (chunked) vs {} (single call) | {}", out.final_enc.unwrap().name(), r.out.final_enc.unwrap().name(), case.describe()));
+        // Decoder::encoding() is C10's clause, not C02's: recorded only
+        ev.count("chunk-diff.encoding()-differs(C10)");
     }
     ev.count("sink-diff.histories");
     if out.scalars() != r.other_sink_scalars && r.out.scalars() == r.other_sink_scalars {
